@@ -23,8 +23,8 @@ import shapes
 import vlib
 from checks.rt_common import model_check
 
-PROGS = {"quick": ["chain", "split2", "map_dyn2", "subpipe", "split10", "map_dynkeys_split"],
-         "thorough": ["chain", "split2", "split0", "split10", "map_dyn2", "map_dyn0", "map_keys", "subpipe", "diamond",
+PROGS = {"quick": ["chain", "chain_rev", "split2", "map_dyn2", "subpipe", "split10", "map_dynkeys_split"],
+         "thorough": ["chain", "chain_rev", "split2", "split0", "split10", "map_dyn2", "map_dyn0", "map_keys", "subpipe", "diamond",
                       "dis_true", "dis_false", "preflight", "map_pipe", "structs", "map_dynkeys_split", "map_dynarr_split"]}
 SIGS = {"SIGKILL": 9, "SIGTERM": 15, "SIGINT": 2}
 
@@ -64,6 +64,47 @@ def one_cycle(root, wd, prog, sem, name, k, sig):
             pass
     c.cleanup()
     return res
+
+
+def fault_cycle(root, wd, prog, sem, name, fault_key, slow_key, ref_outs):
+    """A later fork of a mapped stage fails (once) while an earlier fork is still running; mrp
+    is killed right after it has read the failure; the operator removes the lock and starts mrp
+    again: it must complete with the reference outputs.  Returns (result or None, note)."""
+    faults, delays = {fault_key: "errors*1"}, {slow_key: 2500}
+    # first pass without a kill: where in mrp's effects the failure is read
+    c0 = procdrv.Cycle(root, wd + "_probe", prog, sem, name + "#probe", faults=faults, delays={slow_key: 600})
+    c0.run(timeout=120)
+    evs = c0.events()
+    c0.cleanup()
+    w = mrp_writer(evs)
+    mine = [e for e in evs if e.get("w") == w]
+    k = next((i + 1 for i, e in enumerate(mine) if e.get("ev") == "JournalSeen" and e.get("file", "").endswith("errors")), 0)
+    if not k:
+        return None, "the probe run never read the failure through the journal"
+    c = procdrv.Cycle(root, wd, prog, sem, name, faults=faults, delays=delays)
+    c.mark("RunBegin")
+    rc1, _ = c.run(crash_at=k)
+    evs1 = c.events()
+    began = {e["job"] for e in evs1 if e.get("ev") == "StageBegin"}
+    ended = {e["job"] for e in evs1 if e.get("ev") == "StageEnd"}
+    if not (slow_key in began and slow_key not in ended and fault_key in ended):
+        c.cleanup()
+        return None, "the kill did not fall between the failure of %s and the end of %s" % (fault_key, slow_key)
+    c.mark("Interrupted", sig="SIGKILL", rc=str(rc1), locked=c.locked())
+    c.remove_lock()
+    n1 = len(c.events())
+    rc2, _ = c.run(timeout=60)
+    outs = c.top_outs()
+    c.mark("RunEnd", rc=str(rc2))
+    res = {"name": name, "k": k, "sig": "SIGKILL", "rc1": rc1, "rc2": rc2, "outs": outs, "ref": ref_outs,
+           "mrp_out": ""}
+    try:
+        res["mrp_out"] = open(os.path.join(wd, "mrp.out"), errors="replace").read()[-2500:]
+    except OSError:
+        pass
+    res["mro"] = c.mro
+    c.cleanup()
+    return res, ""
 
 
 def records(res, sem, ref_outs):
@@ -206,6 +247,28 @@ def run(tier, replay=None):
                        "program.mro": __import__("mro").render(p, stage_lang="comp"),
                        "trace.ndjson": "\n".join(json.dumps(e) for e in r["events"]) + "\n"},
         })
+    # a fork of a mapped stage has failed, an earlier one still runs, mrp is killed, restarted
+    fault_report = []
+    for pname, fkey, skey in (("map_dyn2", "TOP.A[1]/main/0", "TOP.A[0]/main/0"), ("map_static", "TOP.A[1]/main/0", "TOP.A[0]/main/0")):
+        q = next((x for x in shapes.catalogue() if x["name"] == pname), None)
+        if q is None:
+            continue
+        qsem, _ = psrun.semantics([q])
+        if pname not in refs:
+            c = procdrv.Cycle(root, os.path.join(base, "ref2_" + pname), q, qsem[pname], pname)
+            rc, _ = c.run()
+            refs[pname] = (0, c.top_outs(), [], None)
+            c.cleanup()
+        r, note = fault_cycle(root, os.path.join(base, "fc_" + pname), q, qsem[pname], pname + "#fault", fkey, skey, refs[pname][1])
+        if r is None:
+            fault_report.append({"program": pname, "skipped": note})
+            continue
+        fault_report.append({"program": pname, "killed_after_effect": r["k"], "restart_exit": r["rc2"], "outputs_equal": r["outs"] == r["ref"]})
+        if r["rc2"] != 0 or r["outs"] != r["ref"]:
+            viols.append({"prop": "C05", "key": "C05:%s:SIGKILL:fork-failed-earlier-fork-running:restart" % pname,
+                          "what": "C05 program %s: fork %s failed (the job succeeds when run again) while %s was still running, mrp was killed right after reading the failure; the restarted mrp ended with status %s, outputs %s, reference %s; %s" % (
+                              pname, fkey, skey, r["rc2"], json.dumps(r["outs"])[:120], json.dumps(r["ref"])[:120], r["mrp_out"].replace("\n", " ")[-300:]),
+                          "replay": {"program.mro": r["mro"], "report.json": json.dumps({k_: v_ for k_, v_ in r.items() if k_ != "mro"})}})
     mine = [v for v in viols if v["prop"] == "C05"]
     others = sorted({v["prop"] for v in viols if v["prop"] != "C05"})
     if others:
@@ -224,6 +287,7 @@ def run(tier, replay=None):
         "exhaustive_model_runs": mruns,
         "programs": len(progs), "crash_cycles": len(cases), "by_signal": sigs,
         "effects_per_program": {p["name"]: refs[p["name"]][0] for p in progs},
+        "fork_failed_while_earlier_fork_ran": fault_report,
         "restart_outcomes": {str(k): sum(1 for r in results if str(r["rc2"]) == str(k)) for k in {str(r["rc2"]) for r in results}},
         "known_findings_hit": hit,
     }, [
